@@ -299,7 +299,18 @@ pub fn resolve_type<'n>(node_type: &'n str, doc: &RustDocument) -> (&'n str, Opt
 pub fn as_rust_type(node_type: &str, doc: &RustDocument) -> RustFieldType {
     let (node_type, namespace) = split_type(node_type);
 
+    // a prefix that is bound to a schema's namespace denotes a user-defined type, also when the
+    // local name is that of a builtin (tns:duration, tns:language); the XML Schema namespace itself
+    // is never registered as a reference
+    let user_defined = namespace.is_some_and(|ns| doc.find_namespace_by_abbreviation(ns).is_some());
+
     match node_type {
+        _ if user_defined => RustFieldType::Other(OtherRustType {
+            name: xml_name_to_rust_name(node_type),
+            module: namespace
+                .and_then(|ns| doc.find_module_name_from_namespace_reference(ns))
+                .map(ToString::to_string),
+        }),
         "byte" => RustFieldType::I8,
         "string" | "normalizedString" | "base64Binary" | "hexBinary" | "anyURI" | "date" | "dateTime" | "time"
         | "language" | "duration" => RustFieldType::String,
